@@ -255,6 +255,62 @@ func methodCalls(files []*ast.File, pkg, fn string) []string {
 	return res
 }
 
+// c06StoreCalls lists, in source order, every call of a `store…TX` helper in
+// the given function as [callee, destination bucket argument, value argument].
+func c06StoreCalls(files []*ast.File, fn string) [][]string {
+	fd := findFunc(files, fn)
+	if fd == nil {
+		fail("clientdb.%s not found", fn)
+		return nil
+	}
+	var res [][]string
+	ast.Inspect(fd.Body, func(n ast.Node) bool {
+		ce, ok := n.(*ast.CallExpr)
+		if !ok {
+			return true
+		}
+		id, ok := ce.Fun.(*ast.Ident)
+		if !ok || !strings.HasPrefix(id.Name, "store") || !strings.HasSuffix(id.Name, "TX") {
+			return true
+		}
+		a := []string{id.Name, exprString(ce.Args[0]), exprString(ce.Args[len(ce.Args)-1])}
+		res = append(res, a)
+		return true
+	})
+	if len(res) == 0 {
+		fail("clientdb.%s: no store…TX calls", fn)
+	}
+	return res
+}
+
+// c06CallbackDecodes lists the decode helpers called inside the function
+// literal(s) of the given function (the fetchOrderTX callback).
+func c06CallbackDecodes(files []*ast.File, fn string) []string {
+	fd := findFunc(files, fn)
+	if fd == nil {
+		fail("clientdb.%s not found", fn)
+		return nil
+	}
+	var res []string
+	ast.Inspect(fd.Body, func(n ast.Node) bool {
+		fl, ok := n.(*ast.FuncLit)
+		if !ok {
+			return true
+		}
+		ast.Inspect(fl.Body, func(m ast.Node) bool {
+			if ce, ok := m.(*ast.CallExpr); ok {
+				name := exprString(ce.Fun)
+				if strings.Contains(strings.ToLower(name), "deserialize") {
+					res = append(res, name+"("+exprString(ce.Args[len(ce.Args)-1])+")")
+				}
+			}
+			return true
+		})
+		return false
+	})
+	return res
+}
+
 func leanPairList(xs [][2]string) string {
 	var q []string
 	for _, x := range xs {
@@ -288,7 +344,7 @@ func genC06() {
 	acct := newConstEnv(acctFiles)
 	ord := newConstEnv(orderFiles)
 	for _, n := range []string{"StateInitiated", "StateCanceledAfterRecovery",
-		"StatePendingBatch", "StatePendingClosed"} {
+		"StatePendingBatch", "StatePendingClosed", "StateClosed"} {
 		l.p("def acct%s : Nat := %s", n, intConst(acct, "account", n))
 	}
 	for _, n := range []string{"StatePartiallyFilled", "StateExecuted"} {
@@ -326,6 +382,13 @@ func genC06() {
 		leanArgLists(callArgs(dbFiles, "clientdb", "DB.UpdateOrders", "updateOrder", 2)))
 	l.p("def directUpdateAccountArgs : List (List String) := %s",
 		leanArgLists(callArgs(dbFiles, "clientdb", "DB.UpdateAccount", "updateAccount", 2)))
+	// key-level writes of the two order movers: every key of the order
+	// sub-bucket is decoded and rewritten into the destination
+	l.p("def updateOrderStores : List (List String) := %s", leanArgLists(c06StoreCalls(dbFiles, "updateOrder")))
+	l.p("def copyOrderStores : List (List String) := %s", leanArgLists(c06StoreCalls(dbFiles, "copyOrder")))
+	l.p("def updateOrderDecodes : List String := %s", leanStrList(c06CallbackDecodes(dbFiles, "updateOrder")))
+	l.p("def copyOrderDecodes : List String := %s", leanStrList(c06CallbackDecodes(dbFiles, "copyOrder")))
+	l.p("def getOrderDecodes : List String := %s", leanStrList(c06CallbackDecodes(dbFiles, "DB.GetOrder")))
 	l.p("def spendSwitch : List (String × String) := %s", leanPairList(spendSwitch(acctFiles)))
 	l.p("def accountStorePendingBatchCalls : List String := %s",
 		leanStrList(methodCalls(pkgFiles("."), "pool", "accountStore.PendingBatch")))
